@@ -1,6 +1,7 @@
 package main
 
 import (
+	"crypto/sha1"
 	"encoding/binary"
 	"io"
 	"net"
@@ -32,6 +33,8 @@ type connObs struct {
 	EOF     bool  `json:"eof"` // the client closed it
 	Accept  int64 `json:"accept_stamp"`
 	data    []byte
+	parsed  int  // data[:parsed] has been split into whole frames (arrival index)
+	noParse bool // the stream stopped looking like frames
 }
 
 type server struct {
@@ -50,8 +53,9 @@ type server struct {
 	scriptEnd  int32 // 1 once every scripted directive has been carried out
 	executed   int32 // directives carried out
 	infra      string
-	notify     chan struct{} // poked whenever data arrives
-	refuseBase int64         // log.fails when the current refusal period began (run() only, or before run starts)
+	notify     chan struct{}     // poked whenever data arrives
+	seen       map[[20]byte]bool // sha1 of every whole frame received so far, on any connection
+	refuseBase int64             // log.fails when the current refusal period began (run() only, or before run starts)
 }
 
 func newServer(clk *clock, log *hookLogger, script []directive) (*server, error) {
@@ -60,7 +64,7 @@ func newServer(clk *clock, log *hookLogger, script []directive) (*server, error)
 		return nil, err
 	}
 	s := &server{clk: clk, log: log, script: script, ln: ln, addr: ln.Addr().String(),
-		live: map[int]net.Conn{}, stop: make(chan struct{}), notify: make(chan struct{}, 1)}
+		live: map[int]net.Conn{}, seen: map[[20]byte]bool{}, stop: make(chan struct{}), notify: make(chan struct{}, 1)}
 	if len(script) == 0 {
 		atomic.StoreInt32(&s.scriptEnd, 1)
 	}
@@ -171,6 +175,27 @@ func (s *server) appendData(obs *connObs, b []byte) {
 	s.mu.Lock()
 	obs.data = append(obs.data, b...)
 	obs.Bytes = len(obs.data)
+	// index whole frames as they complete (so that waiting for one frame never rescans the streams)
+	for !obs.noParse {
+		rest := obs.data[obs.parsed:]
+		if len(rest) < frameHdr {
+			break
+		}
+		if rest[0] != 10 || rest[1] != 0 {
+			obs.noParse = true
+			break
+		}
+		l := int(binary.BigEndian.Uint32(rest[18:22]))
+		if l < 0 || l > 1<<28 {
+			obs.noParse = true
+			break
+		}
+		if len(rest) < frameHdr+l {
+			break
+		}
+		s.seen[sha1.Sum(rest[:frameHdr+l])] = true
+		obs.parsed += frameHdr + l
+	}
 	s.mu.Unlock()
 	s.poke()
 }
@@ -280,4 +305,12 @@ func (s *server) snapshot() []*connObs {
 		out[i] = &cp
 	}
 	return out
+}
+
+// arrived: has this frame been received whole on some connection?
+func (s *server) arrived(frame []byte) bool {
+	k := sha1.Sum(frame)
+	s.mu.Lock()
+	defer s.mu.Unlock()
+	return s.seen[k]
 }
